@@ -5,13 +5,13 @@ from .. import chrun, pipe
 from ..common import Check, ROOT, seed, src_ref
 
 
-def common_jobs(func_lex, func_gram, why, tier, known, gsub_quick=3389):
+def common_jobs(func_lex, func_gram, why, tier, known, gsub_quick=3389, gsub_thorough=211):
     q = tier == 'quick'
     M = os.path.join(ROOT, 'vf/ch/layout.py')
     ksub = {'KNOWN = set()': 'KNOWN = ' + repr(set(known))} if known else {}
-    nlexeme, nlex = (12, 2) if q else (12, 3)
+    nlexeme, nlex = (12, 2) if q else (8, 3)
     jobs = pipe.jobs_for('vf/ch/layout.py', func_lex, nlexeme, nlex, 300 if q else 2400, extra_subst=ksub, why=None)
-    gsub = gsub_quick if q else 211          # a 1/GSUB slice of the 338k grammar scripts, chosen by VERIF_SEED
+    gsub = gsub_quick if q else gsub_thorough          # a 1/GSUB slice of the 338k grammar scripts, chosen by VERIF_SEED
     for oi in range(15):
         sub = dict({'PART = -1': f'PART = {oi}', 'GSUB = 0': f'GSUB = {gsub}', 'GSEED = 0': f'GSEED = {seed()}'}, **ksub)
 
@@ -29,7 +29,7 @@ def run(tier):
     from sqlparse.filters import others, reindent, aligned_indent
     chk.functions += [src_ref(sqlparse.format), src_ref(others.StripWhitespaceFilter), src_ref(others.SpacesAroundOperatorsFilter),
                       src_ref(reindent.ReindentFilter), src_ref(aligned_indent.AlignedIndentFilter), src_ref(others.SerializerUnicode)]
-    jobs, gsub, (nlexeme, nlex) = common_jobs('tokens', 'g_tokens', 'tokens_why', tier, [], gsub_quick=6779)
+    jobs, gsub, (nlexeme, nlex) = common_jobs('tokens', 'g_tokens', 'tokens_why', tier, [], gsub_quick=6779, gsub_thorough=499)
     for j in jobs:
         if j.func == 'tokens':
             def explain(mod, args):
